@@ -21,11 +21,14 @@ JOBS = int(os.environ.get("VERIF_JOBS", "16"))
 class H:
     """One harness. kind: main | must_fail | finding | best_effort"""
 
-    def __init__(self, name, kind="main", sample=None, finding=None, group=None, expect_panic=False, unreachable=()):
+    def __init__(self, name, kind="main", sample=None, finding=None, group=None, expect_panic=False, unreachable=(), finding_check=None):
         self.name = name
         self.kind = kind
         self.sample = sample or {}
         self.finding = finding  # key into known_findings.json
+        # the failed check(s) by which the known finding manifests (substring of the check description); a finding twin that fails on
+        # ANY OTHER check shows a different violation and is handled like a main harness (replayed, reported)
+        self.finding_check = finding_check
         self.group = group
         self.expect_panic = expect_panic  # harness carries #[kani::should_panic]: nutype code must panic on every path
         self.unreachable = list(unreachable)  # cover!/assert messages that must be UNSATISFIABLE/UNREACHABLE
@@ -499,12 +502,18 @@ def run_property(plan, tier, seed, t_start):
         if h.kind == "finding":
             ent = known.get(h.finding)
             if ent and ent.get("status") == "known":
+                other = [c for c in fc if h.finding_check and h.finding_check not in (c.get("description") or "")]
                 if success:
                     row["outcome"] = "known-finding-no-longer-reproduces"
-                else:
+                    continue
+                if not other:
                     row["outcome"] = "known-finding"
                     known_lines.append((h.finding, ent.get("what")))
-                continue
+                    continue
+                # fails differently from the recorded finding: a new violation candidate (falls through to the main handling)
+                row["differs_from_known_finding"] = [(c.get("description") or "")[:160] for c in other[:3]]
+                fc = other
+                known_lines.append((h.finding, ent.get("what")))
             # status fixed (or not listed): treated like a main harness below
         marker_hit = []
         n_marker_unsat = 0
